@@ -1220,7 +1220,7 @@ func (c *Ctx) r069(rule, rel string) {
 			return hit
 		}
 		if tokVar != nil && cntVar != nil && len(heads) > 0 {
-			for _, kind := range []struct{ tok, what, sample string }{{"CommentToken", "comment", "]]<!--c-->&gt;"}, {"StartTagPIToken", "processing instruction", "]]<?pi x?>&gt;"}} {
+			for _, kind := range []struct{ tok, what, sample string }{{"CommentToken", "comment", "]]<!--c-->&gt;"}, {"StartTagPIToken", "processing instruction", "]]<?pi x?>&gt;"}, {"StartTagToken", "whole element", "]]<metadata>x</metadata>&gt;"}} {
 				key := tokName + ".TokenType == xml." + kind.tok
 				nz := 0
 				var bad []string
